@@ -13,9 +13,13 @@ THEOREMS = [
     "PorepyVerif.C29.split_noncrossing",
     "PorepyVerif.C29.split_tag_info",
     "PorepyVerif.C29.split_parent_is_first",
+    "PorepyVerif.C29.split_tag_info_complete",
+    "PorepyVerif.C29.split_union_eq",
+    "PorepyVerif.C29.split_no_intersection",
     "PorepyVerif.C29.inter_sound",
     "PorepyVerif.C29.inter_complete",
     "PorepyVerif.C29.prefilter_sound",
+    "PorepyVerif.C29.prefilter_pairs_complete",
     "PorepyVerif.C29.side_prefilter_sound",
 ]
 LEAN_MODULES = ["PorepyVerif.C29.Props"]
@@ -28,13 +32,13 @@ RULE = ("sets of 1-8 segments (thorough: up to 12) with integer end points in a 
         "edges with 0, 1 or 2 tag rows; built on purpose: proper crossings with fractional intersection points, several lines through "
         "one fractional point, T-junctions, shared end points, collinear overlaps / containment / touching / chains of collinear pieces, "
         "exact and reversed duplicates with different tags, parallel non-collinear pairs, isolated far-away segments, axis-aligned segments; "
-        "30% of the cases are networks: a polyline, star or closed polygon of 3-5 legs given with SHARED low point indices (optionally after unused leading points), one or two legs properly crossed by 3-8 short segments (some chained through shared indices), the other legs untouched, plus extra segments between existing low-index points; parent order shuffled or base first. "
+        "strata (reported in stats): mix 40%, network 25%, grid 10% (axis-aligned lattice, zero-width boxes, many segments through one lattice point), one-line 10% (all segments on one line), fan 10% (3-6 segments with a common end point under different point indices), tiny 5% (1-2 segments, unused points). networks: a polyline, star or closed polygon of 3-5 legs given with SHARED low point indices (optionally after unused leading points), one or two legs properly crossed by 3-8 short segments (some chained through shared indices), the other legs untouched, plus extra segments between existing low-index points; parent order shuffled or base first. "
         "no zero-length segments. non-trivial = at least one pair of input segments has a common point; distinct = distinct (points, edges)")
 TRUSTED = [
     "modelled, not verified: binary64 rounding in segments_2d and the tolerance-based point merging of uniquify_point_set (the model "
     "deduplicates exact rational points; for the generated integer inputs distinct candidate points differ by > 4e-7 >> tol = 1e-8, "
     "so the two agree; output points are matched to the model's rationals within 1e-9)",
-    "not modelled: the sweep in _identify_overlapping_rectangles and the normalised cross-product side prefilter (np.sqrt, nan handling); "
+    "the sweep in _identify_overlapping_rectangles is modelled by its specification boxPairs (all pairs i<j with overlapping closed boxes), compared exactly with the real sweep on every case; the sweep algorithm itself (sorting, active list) is not verified. not modelled: the tol-widening of zero-width boxes and the normalised cross-product side prefilter (np.sqrt, nan handling); "
     "theorems prefilter_sound / side_prefilter_sound show that the exact versions of both tests only discard pairs without a common point, "
     "the oracle checks the sweep against brute force and the final result against the property, so a prefilter that drops a true intersection is detected",
     "numpy glue: np.unique(axis=1, return_index, return_inverse) returns first occurrences; np.argsort on distinct squared distances",
@@ -153,9 +157,99 @@ def _gen_network(rng, tier):
     return {"pts": pts, "edges": edges, "ntags": ntags, "float_input": rng.random() < 0.5}
 
 
-def gen_case(rng, tier):
+def _table(rng, segs, share=None, ntags=None, stratum="mix"):
+    """Point table + edges for a list of coordinate segments (indices shared with probability `share`)."""
+    pts, edges = [], []
+    share = rng.random() if share is None else share
+    ntags = rng.choice([0, 1, 1, 1, 1, 2]) if ntags is None else ntags
+    for i, (a, b) in enumerate(segs):
+        idx = []
+        for q in (a, b):
+            if list(q) in pts and rng.random() < share:
+                idx.append(pts.index(list(q)))
+            else:
+                pts.append(list(q))
+                idx.append(len(pts) - 1)
+        edges.append(idx + [rng.choice([i + 10, rng.randint(0, 3)]) for _ in range(ntags)])
+    return {"pts": pts, "edges": edges, "ntags": ntags, "float_input": rng.random() < 0.5, "stratum": stratum}
+
+
+def _gen_grid(rng, tier):
+    """Axis-aligned lattice: + crossings and T-junctions at integer points, overlapping collinear runs,
+    several segments through one lattice point (boxes of zero width/height everywhere)."""
+    W = rng.randint(2, 5)
+    n = rng.randint(3, 8 if tier == "quick" else 12)
+    segs = []
+    while len(segs) < n:
+        if rng.random() < 0.5:
+            y, x0, x1 = rng.randint(0, W), rng.randint(0, W), rng.randint(0, W)
+            if x0 != x1:
+                segs.append(((x0, y), (x1, y)))
+        else:
+            x, y0, y1 = rng.randint(0, W), rng.randint(0, W), rng.randint(0, W)
+            if y0 != y1:
+                segs.append(((x, y0), (x, y1)))
     if rng.random() < 0.3:
-        return _gen_network(rng, tier)
+        segs.append(((0, 0), (W, W)))  # one diagonal through the lattice points
+    return _table(rng, segs, stratum="grid")
+
+
+def _gen_one_line(rng, tier):
+    """All segments on a single line: chains, overlaps, containment, duplicates, gaps."""
+    while True:
+        u = (rng.randint(-3, 3), rng.randint(-3, 3))
+        if u != (0, 0) and _gcd(u[0], u[1]) == 1:
+            break
+    o = (rng.randint(-2, 2), rng.randint(-2, 2))
+    n = rng.randint(2, 7)
+    segs = []
+    while len(segs) < n:
+        k1, k2 = rng.randint(-3, 3), rng.randint(-3, 3)
+        if k1 != k2:
+            segs.append(((o[0] + k1 * u[0], o[1] + k1 * u[1]), (o[0] + k2 * u[0], o[1] + k2 * u[1])))
+    return _table(rng, segs, stratum="one-line")
+
+
+def _gen_fan(rng, tier):
+    """3-6 segments with one common end point given under DIFFERENT point indices (coincident points), the common point
+    being start or end at random; sometimes a segment crossing the fan (side-prefilter special paths)."""
+    B = 6
+    c = _rand_pt(rng, B)
+    segs = []
+    while len(segs) < rng.randint(3, 6):
+        q = _rand_pt(rng, B)
+        if q != c:
+            segs.append((c, q) if rng.random() < 0.6 else (q, c))
+    if rng.random() < 0.4:
+        segs.append(_rand_seg(rng, B))
+    rng.shuffle(segs)
+    return _table(rng, segs, share=rng.choice([0.0, 0.0, 0.5]), stratum="fan")
+
+
+def _gen_tiny(rng, tier):
+    """Size 1 / 2: a single segment, or two segments (disjoint, crossing or equal), optional unused points."""
+    B = 3
+    segs = [_rand_seg(rng, B)]
+    if rng.random() < 0.6:
+        segs.append(rng.choice([_rand_seg(rng, B), segs[0], (segs[0][1], segs[0][0])]))
+    c = _table(rng, segs, stratum="tiny")
+    for _ in range(rng.choice([0, 1, 3])):
+        c["pts"].append(list(_rand_pt(rng, B)))
+    return c
+
+
+def gen_case(rng, tier):
+    r = rng.random()
+    if r < 0.25:
+        return dict(_gen_network(rng, tier), stratum="network")
+    if r < 0.35:
+        return _gen_grid(rng, tier)
+    if r < 0.45:
+        return _gen_one_line(rng, tier)
+    if r < 0.55:
+        return _gen_fan(rng, tier)
+    if r < 0.60:
+        return _gen_tiny(rng, tier)
     B = rng.choice([2, 3, 4, 6, 10])
     nmax = 8 if tier == "quick" else 12
     n = rng.choice([1, 2, 2, 3, 3, 4, 4, 5, 6, 7, nmax])
@@ -224,7 +318,7 @@ def gen_case(rng, tier):
         edges.append(idx + tags)
     if rng.random() < 0.2:  # an unused point
         pts.append(list(_rand_pt(rng, B)))
-    return {"pts": pts, "edges": edges, "ntags": ntags, "float_input": rng.random() < 0.5}
+    return {"pts": pts, "edges": edges, "ntags": ntags, "float_input": rng.random() < 0.5, "stratum": "mix"}
 
 
 # ----------------------------------------------------------------------------- real code
@@ -257,7 +351,23 @@ def impl_run(case):
         res, _ = _call(case)
     except Exception as e:  # noqa: BLE001
         return err_kind(e)
-    return _canon(case, res)
+    out = _canon(case, res)
+    out["pairs"] = _impl_pairs(case)
+    return out
+
+
+def _impl_pairs(case):
+    """Output of the bounding-box sweep on the boxes of the input segments (sorted pairs i < j)."""
+    import porepy as pp
+
+    p = np.array(case["pts"], dtype=float).T.reshape((2, -1))
+    e = np.array(case["edges"], dtype=int).T.reshape((2 + case["ntags"], -1))
+    try:
+        x0, x1, y0, y1 = pp.intersections._axis_aligned_bounding_box_2d(p, e)
+        pairs = pp.intersections._identify_overlapping_rectangles(x0, x1, y0, y1)
+    except Exception as ex:  # noqa: BLE001
+        return err_kind(ex)
+    return sorted([int(a), int(b)] for a, b in pairs.T) if pairs.size else []
 
 
 # ----------------------------------------------------------------------------- model side
@@ -282,6 +392,13 @@ def compare(impl, model, case):
         return f"impl {impl!r} vs model {model!r}"
     if "err" in impl or "err" in model or "harness_exc" in impl:
         return None if impl == model else f"impl {str(impl)[:300]} vs model {str(model)[:300]}"
+    if impl.get("pairs") != sorted(model.get("pairs", [])):
+        return f"bounding-box candidate pairs differ: sweep {str(impl.get('pairs'))[:200]} vs model {str(sorted(model.get('pairs', [])))[:200]}"
+    if model.get("nointersect"):  # theorem split_no_intersection: the code must return the input edges unchanged, in order
+        want = [(_F(case["pts"][ed[0]]), _F(case["pts"][ed[1]]), k, tuple(ed[2:])) for k, ed in enumerate(case["edges"])]
+        got = [(_F(e["p"]), _F(e["q"]), e["parent"], tuple(e["tags"])) for e in impl["edges"]]
+        if want != got:
+            return f"no two input segments intersect, but the returned edges are not the input edges in order: {str(got)[:300]}"
     mpts = set()
     for e in model["edges"] + model["pre"]:
         mpts.add(_F(e["p"]))
@@ -553,6 +670,7 @@ def stats(cases, impl_outs):
     frac_pts = 0
     shared_idx = 0
     many_cross = Counter()
+    strata = Counter(c.get("stratum", "corpus") for c in cases)
     for c, o in zip(cases, impl_outs):
         kinds.update(set(_kinds(c)) or {"no-common-point"})
         nseg[len(c["edges"])] += 1
@@ -569,7 +687,7 @@ def stats(cases, impl_outs):
                 trivial_branch += 1
             if any("/" in x for e in o["edges"] for x in e["p"] + e["q"] if Fraction(x).denominator not in (1, 2, 4, 8, 16)):
                 frac_pts += 1
-    return {"cases_with_pair_kind": dict(kinds), "segments_per_case": {str(k): v for k, v in sorted(nseg.items())},
+    return {"strata": dict(strata), "cases_with_pair_kind": dict(kinds), "segments_per_case": {str(k): v for k, v in sorted(nseg.items())},
             "tag_rows": {str(k): v for k, v in sorted(ntag.items())}, "output_edges_per_case(capped 30)": {str(k): v for k, v in sorted(nout.items())},
             "cases_with_shared_point_indices": shared_idx, "max_proper_crossings_on_one_segment(capped 8)": {str(k): v for k, v in sorted(many_cross.items())},
             "cases_where_output_equals_input_count": trivial_branch, "cases_with_non_dyadic_intersection_point": frac_pts,
